@@ -404,10 +404,7 @@ func symConv(utDst, utSrc types.Type, x value) (value, bool) {
 								out = append(out, c)
 							}
 						case symv:
-							if !X.decide(BVCmp("bvult", r.t, BVConst(0x80, 32))) {
-								panic(abortPath{"unsupported: non-ASCII symbolic rune in string([]rune)"})
-							}
-							out = append(out, mkScalar(Resize(r.t, 8, false), types.Uint8))
+							out = append(out, symRuneBytes(r)...)
 						}
 					}
 					return mkStr(out), true
@@ -430,20 +427,76 @@ func (it *symStrIter) next() tuple {
 		return tuple{false, nil, nil}
 	}
 	pos := it.i
-	switch b := it.s.b[pos].(type) {
-	case uint8:
-		if b < 0x80 {
-			it.i++
-			return tuple{true, pos, int32(b)}
-		}
-		panic(abortPath{"unsupported: non-ASCII concrete byte in symbolic string range"})
-	case symv:
-		if X.decide(BVCmp("bvult", b.t, BVConst(0x80, 8))) {
-			it.i++
-			return tuple{true, pos, mkScalar(Resize(b.t, 32, false), types.Int32)}
-		}
-		panic(abortPath{"unsupported: non-ASCII symbolic byte in range"})
+	if b, ok := it.s.b[pos].(uint8); ok && b < 0x80 {
+		it.i++
+		return tuple{true, pos, int32(b)}
 	}
-	panic("symStrIter: bad element")
+	r, n := symDecodeRune(it.s.b[pos:])
+	it.i += n
+	return tuple{true, pos, r}
 }
 
+// symDecodeRune is utf8.DecodeRune over bytes that may be symbolic: the path forks on the shape of the
+// sequence (ASCII, valid 2/3/4-byte sequence, anything else = U+FFFD of width 1), the rune is a bit-vector term.
+func symDecodeRune(bs []value) (value, int) {
+	bt := func(i int) *Term { return Resize(termOf(bs[i]), 32, false) }
+	c := func(v uint64) *Term { return BVConst(v, 32) }
+	in := func(x *Term, lo, hi uint64) *Term { return And(BVCmp("bvuge", x, c(lo)), BVCmp("bvule", x, c(hi))) }
+	cont := func(i int) *Term { return in(bt(i), 0x80, 0xBF) }
+	low6 := func(i int) *Term { return BVBin("bvand", bt(i), c(0x3F)) }
+	shl := func(x *Term, n uint64) *Term { return BVBin("bvshl", x, c(n)) }
+	or := func(xs ...*Term) *Term {
+		r := xs[0]
+		for _, x := range xs[1:] {
+			r = BVBin("bvor", r, x)
+		}
+		return r
+	}
+	rune32 := func(t *Term) value { return mkScalar(t, types.Int32) }
+	b0 := bt(0)
+	if X.decide(BVCmp("bvult", b0, c(0x80))) {
+		return rune32(b0), 1
+	}
+	if len(bs) >= 2 && X.decide(And(in(b0, 0xC2, 0xDF), cont(1))) {
+		return rune32(or(shl(BVBin("bvand", b0, c(0x1F)), 6), low6(1))), 2
+	}
+	if len(bs) >= 3 {
+		b1 := bt(1)
+		okB1 := Ite(Eq(b0, c(0xE0)), in(b1, 0xA0, 0xBF), Ite(Eq(b0, c(0xED)), in(b1, 0x80, 0x9F), in(b1, 0x80, 0xBF)))
+		if X.decide(And(And(in(b0, 0xE0, 0xEF), okB1), cont(2))) {
+			return rune32(or(shl(BVBin("bvand", b0, c(0x0F)), 12), shl(low6(1), 6), low6(2))), 3
+		}
+	}
+	if len(bs) >= 4 {
+		b1 := bt(1)
+		okB1 := Ite(Eq(b0, c(0xF0)), in(b1, 0x90, 0xBF), Ite(Eq(b0, c(0xF4)), in(b1, 0x80, 0x8F), in(b1, 0x80, 0xBF)))
+		if X.decide(And(And(And(in(b0, 0xF0, 0xF4), okB1), cont(2)), cont(3))) {
+			return rune32(or(shl(BVBin("bvand", b0, c(0x07)), 18), shl(low6(1), 12), shl(low6(2), 6), low6(3))), 4
+		}
+	}
+	return int32(0xFFFD), 1
+}
+
+// symRuneBytes is utf8.AppendRune for a symbolic rune: the path forks on the encoding length
+// (1..4 bytes; surrogates and out-of-range values encode U+FFFD), the bytes are bit-vector terms.
+func symRuneBytes(r symv) []value {
+	t := Resize(r.t, 32, true)
+	c := func(v uint64) *Term { return BVConst(v, 32) }
+	by := func(x *Term) value { return mkScalar(Resize(x, 8, false), types.Uint8) }
+	shr := func(n uint64) *Term { return BVBin("bvlshr", t, c(n)) }
+	cont := func(n uint64) value { return by(BVBin("bvor", c(0x80), BVBin("bvand", shr(n), c(0x3F)))) }
+	if X.decide(BVCmp("bvult", t, c(0x80))) {
+		return []value{by(t)}
+	}
+	if X.decide(BVCmp("bvult", t, c(0x800))) {
+		return []value{by(BVBin("bvor", c(0xC0), shr(6))), cont(0)}
+	}
+	bad := Or(And(BVCmp("bvuge", t, c(0xD800)), BVCmp("bvult", t, c(0xE000))), BVCmp("bvugt", t, c(0x10FFFF)))
+	if X.decide(bad) {
+		return []value{uint8(0xEF), uint8(0xBF), uint8(0xBD)}
+	}
+	if X.decide(BVCmp("bvult", t, c(0x10000))) {
+		return []value{by(BVBin("bvor", c(0xE0), shr(12))), cont(6), cont(0)}
+	}
+	return []value{by(BVBin("bvor", c(0xF0), shr(18))), cont(12), cont(6), cont(0)}
+}
